@@ -22,6 +22,8 @@ open AdaptaVerif.Model.Lifecycle AdaptaVerif.Spec.Lifecycle
 @[simp] theorem cons_freeObstacle (s : St) (o : Id) : (s.freeObstacle o).consolidate = s.consolidate := rfl
 @[simp] theorem cons_freeConn (s : St) (c : Id) : (s.freeConn c).consolidate = s.consolidate := rfl
 @[simp] theorem cons_reroute (s : St) : (reroute s).consolidate = s.consolidate := rfl
+@[simp] theorem cons_setCheckpoints (s : St) (c : Id) (vs : List Id) :
+    (s.setCheckpoints c vs).consolidate = s.consolidate := rfl
 
 @[simp] theorem cons_procRemoveMove (s : St) (a : Action) : (procRemoveMove s a).consolidate = s.consolidate := by
   unfold procRemoveMove
@@ -259,6 +261,16 @@ theorem nd_releasePin {s : St} (h : NoDanglingAction s) (p : Id) : NoDanglingAct
   intro o ho
   simpa [St.hasConn, St.releasePin, unpin, List.any_map, Function.comp_def] using ho
 
+theorem hasConn_setCheckpoints (s : St) (c : Id) (vs : List Id) (o : Id) :
+    (s.setCheckpoints c vs).hasConn o = s.hasConn o := by
+  simp only [St.hasConn, St.setCheckpoints, List.any_map]
+  congr 1; funext x; simp only [Function.comp]; split <;> rfl
+
+theorem nd_setCheckpoints {s : St} (h : NoDanglingAction s) (c : Id) (vs : List Id) :
+    NoDanglingAction (s.setCheckpoints c vs) :=
+  nd_transfer h (fun _ x => x) (fun _ x => x) (fun _ x => x)
+    (fun o ho => by rw [hasConn_setCheckpoints]; exact ho) (fun _ x => x)
+
 theorem not_shapeAct_of {t : AType} (h1 : t ≠ .shapeMove) (h2 : t ≠ .shapeAdd) (h3 : t ≠ .shapeRemove) :
     ¬ isShapeAct t := by
   rintro (x | x | x) <;> contradiction
@@ -331,6 +343,11 @@ theorem nd_step {s : St} (h : NoDanglingAction s) (op : Op) (hl : LegalDoc s op 
     split
     · exact nd_addFault h _
     · exact nd_maybeProcess (fun _ => nd_modify h _ hl.1 (specOk_obst hl.2))
+  | setRoutingCheckpoints c vs =>
+    dsimp only
+    split
+    · exact nd_addFault h _
+    · exact nd_setCheckpoints h _ _
   | processTransaction => exact nd_of_nil (actions_processTransaction s)
   | setTransactionUse b => exact nd_setConsolidate h b
   | deleteRouter => exact nd_of_nil rfl
@@ -486,6 +503,8 @@ theorem legalFrom_append (L : St → Op → Bool) (s : St) (h : List Op) (op : O
 @[simp] theorem alive_freeObstacle (s : St) (o : Id) : (s.freeObstacle o).alive = s.alive := rfl
 @[simp] theorem alive_freeConn (s : St) (c : Id) : (s.freeConn c).alive = s.alive := rfl
 @[simp] theorem alive_reroute (s : St) : (reroute s).alive = s.alive := rfl
+@[simp] theorem alive_setCheckpoints (s : St) (c : Id) (vs : List Id) :
+    (s.setCheckpoints c vs).alive = s.alive := rfl
 
 @[simp] theorem alive_procRemoveMove (s : St) (a : Action) : (procRemoveMove s a).alive = s.alive := by
   unfold procRemoveMove
@@ -578,6 +597,7 @@ theorem alive_step (s : St) (op : Op) (hne : op ≠ .deleteRouter) : (step s op)
     | moveShape id => exact alive_moveObstacleOp s _ _
     | moveJunction id => exact alive_moveObstacleOp s _ _
     | setEndpoint c isDst e => dsimp only; split <;> simp
+    | setRoutingCheckpoints c vs => dsimp only; split <;> simp
     | processTransaction => simp
     | setTransactionUse b => rfl
     | deleteRouter => exact absurd rfl hne
